@@ -316,10 +316,10 @@ func FuzzC06ARP(f *testing.F) {
 func TestC06Burst(t *testing.T) {
 	kit.Run(t, kit.Spec[c03BurstCase]{
 		Prop: "C06",
-		Rule: "arp / icmp / tcp fin / tcp syn commands on the virtual wire: 500..6000 distinct reply frames (ICMP types/codes, TTLs, ports, MACs varying frame by frame), each followed by a runt (the same frame cut inside its network or transport header), arrive in one burst; stdout consumer slow for 200 ms. Oracle: the multiset of printed records equals one record per complete frame with exactly that frame's fields (independent decoder) - no record for a runt, none mixing fields of two frames, none lost or doubled. non-trivial: > 2000 replies; distinct by case",
+		Rule: "arp / icmp / tcp fin / tcp syn commands on the virtual wire: 500..6000 distinct reply frames (ICMP types/codes, TTLs, ports, MACs varying frame by frame), each followed by a runt (the same frame cut inside its network or transport header), in half of the cases every 7th reply longer on the wire than the capture length (4000 bytes of data, padded ARP), arrive in one burst; stdout consumer slow for 200 ms. Oracle: the multiset of printed records equals one record per complete frame with exactly that frame's fields (independent decoder) - no record for a runt, none mixing fields of two frames, none lost or doubled. non-trivial: > 2000 replies; distinct by case",
 		Gen: func(t *rapid.T) c03BurstCase {
 			return c03BurstCase{Cmd: rapid.SampledFrom([]string{"arp", "icmp", "icmp", "tcp fin", "tcp syn"}).Draw(t, "cmd"), Replies: rapid.SampledFrom([]int{500, 2100, 3000, 6000}).Draw(t, "replies"),
-				SlowUs: rapid.SampledFrom([]int{50, 120}).Draw(t, "slow"), Seed: rapid.Int64().Draw(t, "seed"), Runts: true}
+				SlowUs: rapid.SampledFrom([]int{50, 120}).Draw(t, "slow"), Seed: rapid.Int64().Draw(t, "seed"), Runts: true, Jumbo: rapid.Bool().Draw(t, "jumbo")}
 		},
 		Check: c03BurstCheck,
 	})
